@@ -16,6 +16,7 @@ from gen import catalog as CAT
 from gen import cfmt as GC
 from gen import pyfmt as GP
 from gen import pybrace as GB
+from gen import sweep as SW
 
 LINE_RE = re.compile(r'\A[EWIP]: [^\n]*\Z')
 def _bad_class():
@@ -301,7 +302,7 @@ def model_streams(chk, rng):
     """correspondence of the pipeline model with the real code (scripted collaborators): see pipeline_common.py"""
     big = chk.thorough
     try:
-        if chk.lean is not None and chk.lean.translation.get('excmap') == 'changed':
+        if chk.lean is not None and any(v == 'changed' for v in chk.lean.translation.values()):
             with common.Lock():
                 rc, log = common.lake_build(['driver'])
             if rc != 0:
@@ -344,7 +345,8 @@ def main():
     chk = common.Check('C01')
     sect = {}
     chk.coverage['section_wall_s'] = sect
-    chk.prove('I18n.Props.C01', generated=('excmap',))
+    # the exception map of the source, and every data table of /repo/data that a C01 obligation quantifies over (Props/C01 §8)
+    chk.prove('I18n.Props.C01', generated=('excmap', 'pluralforms', 'tagregistry', 'tagsites', 'locale', 'charset', 'date', 'msg'))
     rng = chk.rng
     model_streams(chk, rng)
     mult = 3 if chk.broken else 1
@@ -371,6 +373,16 @@ def main():
             descr[len(cases) - 1] = 'corpus:' + name
     cases.append((len(cases), b'', '.po', {'special': 'rply-cache-race'}))
     descr[len(cases) - 1] = 'simulated race of two -j workers on rply\'s cache directory (the directory appears between exists() and makedirs())'
+    # every row of every data table the tool trusts, every member of the character classes its code distinguishes (gen/sweep.py)
+    try:
+        sweep_cases, sweep_counts = SW.all_cases(rng, thorough=chk.thorough)
+    except Exception as exc:        # a data table the loaded tool can no longer read is itself a finding of the e2e runs below
+        sweep_cases, sweep_counts = [], {'error': repr(exc)[:300]}
+        chk.broken.append({'kind': 'falsifier', 'problem': 'table sweep could not be generated from the loaded tool: %r' % (exc,)})
+    for data, ext, opts, what in sweep_cases:
+        cases.append((len(cases), data, ext, opts))
+        descr[len(cases) - 1] = what
+    n_fixed = len(cases)
     bb = CAT.corpus(common.REPO)
     for name, data in bb:
         if rng.random() < (1.0 if chk.thorough else 0.35):
@@ -378,7 +390,7 @@ def main():
             cases.append((len(cases), CAT.mutate_bytes(rng, data), ext, make_opts(rng)))
             descr[len(cases) - 1] = 'blackbox-mutant:' + name
     kinds = collections.Counter()
-    while len(cases) < n_files:
+    while len(cases) < n_files + n_fixed:
         data, ext, kind = HG.gen_file(rng)
         kinds[kind] += 1
         cases.append((len(cases), data, ext, make_opts(rng)))
@@ -400,7 +412,7 @@ def main():
     run_cases(cases, workers, on_result)
     chk.evaluations += len(cases)
     chk.note_cases(tagcount.keys())
-    chk.coverage['in_process'] = {'files': len(cases), 'by_generator': dict(kinds), 'outcomes': dict(stats), 'distinct_tags_emitted': len(tagcount),
+    chk.coverage['in_process'] = {'files': len(cases), 'by_generator': dict(kinds), 'sweeps': sweep_counts, 'outcomes': dict(stats), 'distinct_tags_emitted': len(tagcount),
                                   'tags_emitted': dict(tagcount.most_common()), 'slowest_cpu_s': sorted(slow, reverse=True)[:5],
                                   'size_bytes': {'max': max(len(c[1]) for c in cases), 'mean': sum(len(c[1]) for c in cases) // len(cases)}}
     for key, rs in crashes.items():
@@ -696,7 +708,9 @@ def main():
         chk.violation('proof obligation no longer checks', {'broken': chk.broken}, no_input=True)
     chk.finish(
         level='proof',
-        rule='in-process: corpus/C01 witnesses + byte-mutated black-box corpus + slot-grammar files (header fields incl. X-Poedit-* and malformed names, flags, format strings of the four kinds, '
+        rule='in-process: corpus/C01 witnesses + table sweeps (every row of data/languages x language sources, characters, iso codes, charsets, header fields, string formats, timezones, control characters, '
+             'special domains, read from the loaded tool) + character-class sweeps (every str.isspace character as a line at 11 positions and as separator in 18 slots, every non-ASCII str.isdigit '
+             'character in 17 numeric slots) + byte-mutated black-box corpus + slot-grammar files (header fields incl. X-Poedit-* and malformed names, flags, format strings of the four kinds, '
              'plural declarations with boundary numerals / 4300-4301 digits / nesting 3..1500, 130 charset names incl. the tool\'s own, non-ASCII-compatible and non-text codecs, bodies encoded in the '
              'declared or in a wide/stateful codec, dates, locale names, addresses with nested comments, XML-gated messages, PO lexical/structural shapes), MO files from a serializer (hostile headers, '
              'corrupted words, truncation), random bytes, other extensions x options (-l valid/invalid, --file-type, base name, LC_MESSAGES directory); command line: special cases (unreadable paths, '
@@ -721,7 +735,7 @@ def main():
                     'pipeline_nocrash_unconditional (every Pending field discharged: loaders = C09 Mo.parse and C10 Po.load (Lemmas/PoNoCrash: closed outcome set), stages = C17\'s Meta.Real.pipeline with the models of '
                     'C15, C19, C04-C07, C20, C18, C16, C14 over the parsers of C11/C12/C13 (Lemmas/PipelineBrace, PipelineReal): status 0, empty stderr, only tag lines for every list of arguments incl. ARBITRARY '
                     'byte strings as MO/PO/POT, every accepted -l, every -j), real_mo_nocrash, real_po_nocrash, worldOk_live, pipeline_crash_visible, '
-                    'line_is_tag_line (C02), recursion_budget. OUTSTANDING: nothing about a stage; the world contracts named under trusted_base; any theorem about time; recursion depth (REFUTED on the real code: open finding '
+                    'line_is_tag_line (C02), recursion_budget; the trusted data tables as obligations over Generated files regenerated by this check: registry_parses_strictly (C07 shipped_registry_clean), registry_language_nocrash, tags_registered, locale_tables_sane, charset_tables_sane, timezone_table_sane, message_tables_sane. OUTSTANDING: nothing about a stage; the world contracts named under trusted_base; any theorem about time; recursion depth (REFUTED on the real code: open finding '
                     'crash:RecursionError:lib/intexpr.py, plural expressions nested deeper than ~490, replayed from corpus/C01 on every run). '
                     'TEST (this run): %d in-process files, %d command-line runs, %d size-doubling families, %d regexes screened (%d repeats pumped), %d slot-sweep files. '
                     'FIXED by this check\'s findings in /repo: 4ff67ee, d16b49e, 875595a (+ recorded 2f85d76, 9de4551).'
